@@ -1,10 +1,16 @@
 """C10 — outputs are a function of the inputs only; no memory errors on valid input."""
 TARGETS = {
     "c10_determinism": dict(src="props/c10_determinism.cpp", flavors=["gcc", "asan", "fuzz"], asan_div=3),
+    # extension to "any preconditioner or solver" (shared machinery: props/c10_common.hpp, hashed into the build key by bin/check)
+    "c10_complex": dict(src="props/c10_complex.cpp", flavors=["gcc", "asan"], asan_div=5),
+    "c10_block2": dict(src="props/c10_block.cpp", flags=["-DC10_B=2"], flavors=["gcc", "asan"], asan_div=5),
+    "c10_block3": dict(src="props/c10_block.cpp", flags=["-DC10_B=3"], flavors=["gcc", "asan"], asan_div=5),
+    "c10_adapters": dict(src="props/c10_adapters.cpp", flavors=["gcc", "asan"], asan_div=5),
+    "c10_composite": dict(src="props/c10_composite.cpp", flavors=["gcc", "asan"], asan_div=5),
 }
 PROPS = {
     "C10": dict(
-        targets=["c10_determinism"],
+        targets=["c10_determinism", "c10_complex", "c10_block2", "c10_block3", "c10_adapters", "c10_composite"],
         fuzz=[dict(target="c10_determinism", prop="determinism", quick_runs=15000, thorough_runs=600000, thorough_jobs=8, max_len=1024)],
         level="exploration",
         rule="tape-decoded systems with the degenerate classes generated on purpose (1x1, diagonal, disconnected unions, rows with only positive off-diagonals, "
@@ -12,9 +18,30 @@ PROPS = {
              "(runtime interface) and single-level relaxation preconditioners. gcc build: global operator new replaced so that fresh memory is filled with 0x00/0xFF/0xAA/random bytes "
              "and the case is re-run after a generated allocation pre-history; hierarchy matrices (friend accessor), two preconditioner applications and two solves (or the exception text) "
              "must be bitwise identical across all fills. asan build and libFuzzer campaign: same cases under ASan+UBSan+LSan (leak check after every case). "
-             "non-trivial: a degenerate class is hit or a multi-level hierarchy is built. distinct = distinct decoded choice sequences.",
+             "Extension targets (same differential, same sanitizer twin with a leak check per case, n <= 64 scalar unknowns, maxiter <= 25, 9 solvers incl. preonly, solver options pside/ns_search/"
+             "IDR(s) s<=n/LGMRES K and always_reset, relaxation options; W-cycles only with max_levels <= 3, depth capped at 3 when nullspace.cols >= 2; additionally the printed summary (operator<<) and a "
+             "repeated preconditioner application are compared): "
+             "c10_complex = builtin<complex<double>>, strictly diagonally dominant complex systems (negative real / random-phase / Hermitian / positive real off-diagonals, complex diagonal shift), "
+             "all 4 coarsenings (ruge_stuben is rejected for complex values: the exception text is the compared outcome) x 9 relaxations x 9 solvers, near-null-space; "
+             "c10_block2 / c10_block3 = builtin<static_matrix<double,B,B>> with rhs static_matrix<double,B,1>, block systems whose scalar expansion is strictly row diagonally dominant with "
+             "structurally incomplete blocks, classes 1x1 / block-diagonal / disconnected / graph, handed over as block-valued tuple, through adapter::block_matrix over the scalar arrays, or through "
+             "make_block_solver with scalar right-hand sides; ruge_stuben and spai1 are rejected for block values (compared exception), near-null-space goes through coarsening::as_scalar "
+             "(cols a multiple of B, one in eight not: clean rejection); "
+             "c10_adapters = double through adapter::zero_copy (shared_ptr used without copy, or by reference), zero_copy_direct (ptrdiff_t shared / int by reference), adapter::reorder<cuthill_mckee<false|true>>, "
+             "scale_diagonal/scaled_problem (rhs copy or in place), a shared_ptr<crs> owning its arrays, amg::rebuild (tuple or shared_ptr second matrix, allow_rebuild true and now and then false), "
+             "pointwise aggregation (aggr.block_size); rows shuffled where the entry point copies and sorts, sorted where the matrix is used in place; the user's exact-size heap arrays must be bit-identical "
+             "after every library object is destroyed and are freed afterwards (a wrong own_data flag is a double free); "
+             "c10_composite = double, runtime::preconditioner classes dummy / nested (make_solver as preconditioner, two levels of nesting) / amg / relaxation, schur_pressure_correction (pmask as raw array, "
+             "'%s:m', '<m', '>m' with at least one pressure and one flow unknown; type 1/2, approx_schur, adjust_p 0/1/2, simplec_dia; inner make_solver<runtime::preconditioner, runtime solver> with <= 4 iterations), "
+             "cpr and cpr_drs (block_size 2..3, n = block_size x cells, active_rows < n in 1/6, eps_dd/eps_ps/weights array; pressure amg x global relaxation chosen at run time), deflated_solver "
+             "(SPD M-matrix, 1..4 weighted subdomain indicator vectors); hierarchies are private there: printed summary, applications, solves and exception texts are compared, user-owned pmask / weights / "
+             "deflation / near-null-space arrays must stay bit-identical. "
+             "non-trivial: a degenerate class is hit or a multi-level hierarchy is built (observed through the friend accessor or the printed number of levels); for c10_composite also a composite with a "
+             "non-empty two-sided split (schur: couplings in both directions; cpr: >= 2 coupled cells; deflated: n > nvec; nested/dummy: n >= 2 with an off-diagonal). distinct = distinct decoded choice sequences.",
         assumptions=["heap contents are modelled by four fill patterns and two allocation histories per case", "single-threaded runs (thread-count effects are C09)",
-                     "aligned operator new overloads are not replaced (the library does not use them)"],
+                     "aligned operator new overloads are not replaced (the library does not use them)",
+                     "hierarchy matrices are compared where an amg object is reachable (make_solver::precond()); behind schur_pressure_correction, cpr, cpr_drs, runtime::preconditioner and make_block_solver "
+                     "only the printed summary and the action of the operators are observed"],
         min_nontrivial=500,
     ),
 }
@@ -23,8 +50,11 @@ MANIFEST_TEXT = {
         engine="rapidcheck + poisoned allocator + ASan/UBSan/LSan twin + libFuzzer",
         technique="differential testing of one input against itself under different heap contents and allocation histories (bitwise), and sanitizer-instrumented property-based / coverage-guided fuzzing over generated degenerate inputs",
         level_text="Generated-input search over valid and degenerate systems and the whole runtime configuration space; a dependence on uninitialised memory shows up as a bitwise difference between fills, "
-                   "a memory error as a sanitizer report attributed to the generating case. It cannot show absence; stack reads are only visible through ASan/UBSan.",
-        level_note="trusted: the replaced global operator new (common/poison.hpp), sanitizer runtimes of clang 14",
+                   "a memory error as a sanitizer report attributed to the generating case. The same differential and sanitizer twin are instantiated for complex values, 2x2 and 3x3 block values "
+                   "(block tuple, adapter::block_matrix, make_block_solver), the zero-copy / reorder / scaled-problem / shared_ptr / rebuild entry points (with an ownership check of the user's arrays) "
+                   "and the composite preconditioners (runtime::preconditioner dummy/nested, schur_pressure_correction, cpr, cpr_drs, deflated_solver). "
+                   "It cannot show absence; stack reads are only visible through ASan/UBSan; the libFuzzer campaign covers the scalar runtime harness only.",
+        level_note="trusted: the replaced global operator new (common/poison.hpp), sanitizer runtimes of clang 14, props/c10_common.hpp (digest and comparison)",
         design_ref="DESIGN.md section 3.6 and section 4, C10",
     ),
 }
